@@ -79,6 +79,8 @@ def lf_obligations(ctx):
 
 def obligations(ctx):
     sl = shapes.enumerate_shapes(ctx.tier, ctx.seed)
+    if ctx.tier != "quick":
+        vlib.JOBS = min(vlib.JOBS, 6)     # two-blob shapes need up to 7 GB each; thousands of them run in the thorough tier
     obls = lf_obligations(ctx) + shape_obligations(ctx, PID, PROPDEF, sl)
     avs = [s for s in sl if not s.symstr]
     if ctx.tier == "quick":
